@@ -426,6 +426,25 @@ func (ex *Exec) runFrom(f *Frame, st *State, b *ssa.BasicBlock, idx int, prev *s
 				if ex.runDefers(f, st, b, i, prev) {
 					return
 				}
+			case *ssa.UnOp:
+				// a load at a symbolic index from a small array whose elements are
+				// all known (e.g. ranging over []*T{&a, &b, &c}): one path per element
+				if alts := ex.loadAlternatives(f, st, x); len(alts) > 1 {
+					for k, a := range alts {
+						st2 := st
+						if k < len(alts)-1 {
+							st2 = st.clone()
+						}
+						st2.assume(a.cond)
+						f.regs[x] = a.val
+						ex.runFrom(f, st2, b, i+1, prev)
+					}
+					return
+				}
+				if !ex.step(f, st, in) {
+					ex.endPath()
+					return
+				}
 			default:
 				if !ex.step(f, st, in) {
 					ex.endPath()
@@ -651,13 +670,26 @@ func (ex *Exec) enterBlock(f *Frame, st *State, b, prev *ssa.BasicBlock) bool {
 				}
 			}
 		}
+		mayChange := func(t types.Type) bool {
+			if ld.calls {
+				return true
+			}
+			for _, w := range ld.stTyps {
+				if typeHolds(t, w, 0) {
+					return true
+				}
+			}
+			return false
+		}
 		for o, cur := range st.mem {
-			if !keep[o] {
+			if !keep[o] && mayChange(o.Typ) {
 				st.mem[o] = ex.w.havocMem(st, cur, o.Typ, o.Name)
 			}
 		}
 		for a := range st.arrs {
-			st.arrs[a] = ex.w.freshArrState(a.Elem, a.Sym)
+			if mayChange(a.Elem) {
+				st.arrs[a] = ex.w.freshArrState(a.Elem, a.Sym)
+			}
 		}
 	} else if ld.arrs {
 		// the loop only writes elements of scalar slices: backing arrays of
@@ -1618,4 +1650,45 @@ func hasTypeParam(t types.Type, depth int) bool {
 		}
 	}
 	return false
+}
+
+type loadAlt struct {
+	cond string
+	val  Val
+}
+
+func (ex *Exec) loadAlternatives(f *Frame, st *State, x *ssa.UnOp) []loadAlt {
+	if x.Op != token.MUL {
+		return nil
+	}
+	p, ok := f.regs[x.X].(VPtr)
+	if !ok || p.Arr == nil || len(p.Path) != 0 {
+		return nil
+	}
+	if _, scalar := scalarWidth(p.Arr.Elem); scalar {
+		return nil
+	}
+	if _, lit := litVal(p.Idx); lit {
+		return nil
+	}
+	as := st.arrs[p.Arr]
+	// literal elements 0..n-1, all present, n small
+	n := 0
+	for k := range as.Elems {
+		if _, lit := litVal(k); lit {
+			n++
+		}
+	}
+	if n < 2 || n > 8 {
+		return nil
+	}
+	var alts []loadAlt
+	for k := 0; k < n; k++ {
+		e, ok := as.Elems[bvLit(uint64(k), 64)]
+		if !ok || e == nil {
+			return nil
+		}
+		alts = append(alts, loadAlt{cond: mkEq(p.Idx, bvLit(uint64(k), 64)), val: ex.w.snapshot(st, e)})
+	}
+	return alts
 }
